@@ -76,6 +76,8 @@ pub struct Exec {
     lookups: u64,
     adopt_weight: BTreeSet<u8>,
     sweeper_held: bool,
+    /// keys whose delete was acknowledged Accepted and that were not put again since
+    deleted_keys: BTreeSet<u8>,
     /// first expiry-index inconsistency seen (reported at the end of the case)
     pub deferred: Option<Failure>,
     /// report expiry-index inconsistencies at once (check of C10)
@@ -124,6 +126,7 @@ impl Exec {
             lookups: 0,
             adopt_weight: BTreeSet::new(),
             sweeper_held: false,
+            deleted_keys: BTreeSet::new(),
             deferred: None,
             strict_index: false,
             focus: String::new(),
@@ -343,6 +346,7 @@ impl Exec {
         // accounting (C05): bijection store ids <-> charged ids, matching total. Reported at once by the checks of the
         // accounting properties; deferred by the others (see `soft`) so that they can observe what the corruption leads to.
         let mut weights: BTreeMap<u64, (u8, i64)> = BTreeMap::new();
+        let deleted_keys = self.deleted_keys.clone();
         let accounting = (|| -> Check {
             let mut sum: i128 = 0;
             for entry in &snapshot.weights {
@@ -357,7 +361,11 @@ impl Exec {
             }
             for (id, (k, weight)) in &weights {
                 let held = store.get(k).map(|(store_id, _, _)| store_id == id).unwrap_or(false);
-                ensure!(held, "C05", "C05/charge-without-entry", "weight {} is charged under id {} for key {} but the store holds no such entry (store ids: {:?})", weight, id, k, store);
+                if !held {
+                    // C04 as well if the key's delete was acknowledged: "its weight is no longer counted"
+                    let also = if deleted_keys.contains(k) { vec!["C04".to_string()] } else { Vec::new() };
+                    return Err(Failure::new("C05", "C05/charge-without-entry", format!("weight {} is charged under id {} for key {} but the store holds no such entry (store ids: {:?}){}", weight, id, k, store, if also.is_empty() { "" } else { "; the delete of that key was acknowledged Accepted, its weight must no longer be counted" })).with_also(also));
+                }
             }
             ensure!(sum == snapshot.weight_used as i128, "C05", "C05/sum-mismatch", "total weight used {} != sum of charged weights {}", snapshot.weight_used, sum);
             Ok(())
